@@ -216,6 +216,9 @@ func enumCheck(ad *enumAdapter, maxMapFns int, st *Stats) *Viol {
 func (b *listBox[T]) enumAdapter() *enumAdapter {
 	var zero T
 	cod := append([]T{}, b.sys.U...)
+	if b.sys.Gen != nil {
+		cod = []T{b.sys.Gen(1000001), b.sys.Gen(1000002), b.sys.Gen(1000003)}
+	}
 	return &enumAdapter{name: b.a.name, seq: b.ExpSeq(), codomain: len(cod), findNone: Pair{-1, zero},
 		recvKey: b.Key, recvObj: b.a.obj, recheck: b.CheckState,
 		each: func(cb func(a, b any)) { b.a.each(func(i int, v T) { cb(i, v) }) },
@@ -276,7 +279,20 @@ func (b *setBox[T]) enumAdapter() *enumAdapter {
 				for _, c := range ch {
 					rb.refAdd(cod[c])
 				}
-				return rb.CheckState()
+				if v := rb.CheckState(); v != nil {
+					return v
+				}
+				// "built by inserting the mapped elements in iteration order": exactly what a fresh set of
+				// the same kind holds after adding them one by one (this fixes WHICH of several
+				// equal-comparing images is kept)
+				fresh := b.sys.newAPI()
+				for _, c := range ch {
+					fresh.add(cod[c])
+				}
+				if got, want := r.values(), fresh.values(); !eqSlice(got, want) {
+					return viol(tag("C14"), "mismatch", "Values() = %v, but adding the mapped elements one by one to a fresh %s gives %v", got, b.a.name, want)
+				}
+				return nil
 			}, r.obj, func() { r.add(b.sys.Absent); r.remove(b.sys.U[0]); r.clear() }
 		}}
 }
@@ -331,7 +347,21 @@ func (b *kvBox[K, V]) enumAdapter() *enumAdapter {
 				for _, c := range ch {
 					rb.refPut(cod[c].k, cod[c].v)
 				}
-				return rb.CheckState()
+				if v := rb.CheckState(); v != nil {
+					return v
+				}
+				// exactly what repeated Put on a fresh map of the same kind and configuration gives
+				fresh := b.sys.newBox().a
+				for _, c := range ch {
+					fresh.put(cod[c].k, cod[c].v)
+				}
+				if gk, wk := r.keys(), fresh.keys(); !eqSlice(gk, wk) {
+					return viol(tag("C14"), "mismatch", "Keys() = %v, but putting the mapped pairs one by one into a fresh %s gives %v", gk, b.a.name, wk)
+				}
+				if gv, wv := r.values(), fresh.values(); !eqSlice(gv, wv) {
+					return viol(tag("C14"), "mismatch", "Values() = %v, but putting the mapped pairs one by one into a fresh %s gives %v", gv, b.a.name, wv)
+				}
+				return nil
 			}, r.obj, func() { r.put(b.sys.KU[len(b.sys.KU)-1], lastV); r.remove(b.sys.KU[0]); r.clear() }
 		}}
 }
@@ -346,7 +376,7 @@ func init() {
 		case "treemap", "linkedhashmap", "treebidimap":
 			u, vu := j.p("u", 3), j.p("vu", 2)
 			cmpN, vcmpN := j.s("cmp", "nat"), j.s("vcmp", "nat")
-			s = &KVSys[int, int]{Kind: c, CmpN: cmpN, VCmpN: vcmpN, N: j.p("n", u), KU: intRange(1, u), VU: intRange(1, vu),
+			s = &KVSys[int, int]{Kind: c, CmpN: cmpN, VCmpN: vcmpN, N: j.p("n", u), KU: intU(u), VU: intU(vu),
 				KCmp: intCmp(cmpN), VCmp: intCmp(vcmpN), PropsL: kvProps}
 		default:
 			s = makeSys(c, j)
